@@ -163,6 +163,43 @@ fn git_config_escape(v: &str) -> String {
 }
 
 /// undo git's sq_quote_argv_pretty
+/// Byte-level decoding for the coverage-guided target: the bytes are split at
+/// 0x00 into tokens; a token of one byte >= 0x80 selects a vocabulary word,
+/// anything else is taken literally (lossy UTF-8, NULs cannot occur).
+pub fn case_from_bytes(data: &[u8]) -> Option<Case> {
+    if data.is_empty() {
+        return None;
+    }
+    let vocab: Vec<&str> = NOVALUE_GLOBALS.iter().chain(META).chain(UNKNOWN_DASH).chain(COMMANDS).chain(CMD_ARGS).copied().collect();
+    let with_aliases = data[0] & 1 == 1;
+    let mut args = Vec::new();
+    for tok in data[1..].split(|b| *b == 0).take(12) {
+        if tok.len() == 1 && tok[0] >= 0x80 {
+            args.push(vocab[(tok[0] - 0x80) as usize % vocab.len()].to_string());
+        } else if !tok.is_empty() {
+            let s = String::from_utf8_lossy(tok).into_owned();
+            // literal tokens must not be able to make real git (the oracle) run programs
+            // or leave the scratch repository
+            let low = s.to_lowercase();
+            if s.len() > 64
+                || s.chars().any(|c| c.is_control() || "!/$`;|&<>\\".contains(c))
+                || ["pager", "editor", "command", "fsmonitor", "hook", "exec", "helper", "ext:", "program", "textconv", "filter", "external", "askpass", "proxy", "driver", "gpg", "ssh"]
+                    .iter()
+                    .any(|w| low.contains(w))
+            {
+                return None;
+            }
+            args.push(s);
+        }
+    }
+    let aliases = if with_aliases {
+        vec![("a0".to_string(), "status -s".to_string()), ("a1".to_string(), "a2 --short".to_string()), ("a2".to_string(), "a0".to_string()), ("a3".to_string(), "!echo hi".to_string())]
+    } else {
+        vec![]
+    };
+    Some(Case { args, aliases, end_to_end: false })
+}
+
 pub fn sq_split(s: &str) -> Vec<String> {
     let mut out = Vec::new();
     let mut cur = String::new();
